@@ -53,10 +53,31 @@ theorem around_bal {w : Comp} {b : MComp} {ins : Option (TState × Mode)} {s : T
   unfold Around at h
   split at h <;> simp [h]
 
+/-- In the pseudo-mode `refused` a body does nothing but raise the scope's refusal. -/
+def Refuses (b : MComp) : Prop := ∀ s, b .refused s = ⟨s, some .rejected, []⟩
+
+/-- With the code under test (checks in `__init__`, `__enter__` = the conditional push): accepted options behave as
+`functionScope`, refused ones raise before anything is entered.  (Fails to compile if the regenerated steps change.) -/
+theorem fsWith_eq (ur feat : Bool) (body : Comp) (s : TState) :
+    fsWith ur feat body s = if feat then ⟨s, some .rejected, []⟩ else functionScope ur body s := by
+  cases feat <;> cases ur <;>
+    simp [fsWith, scopeWith, Gen.fsInitSteps, Gen.fsEnterSteps, runEnter, functionScope, withFresh, withEntry, push]
+
+theorem fsWith_around (ur feat : Bool) (mOk : Mode) (b : MComp) (hb : MBal b) (hr : Refuses b) (s : TState) :
+    Around (fsWith ur feat (b mOk)) b (some (insideScope ur feat mOk s)) s := by
+  unfold Around
+  rw [fsWith_eq]
+  cases feat
+  · cases ur
+    · simpa [insideScope, functionScope] using plain_eq _ (hb mOk) s
+    · simpa [insideScope, functionScope] using withFresh_eq _ _ (hb mOk) s
+  · simp [insideScope, hr s]
+
 theorem plainCall_around (m : Mode) (b : MComp) (hb : MBal b) (s : TState) :
     Around (plainCall m b) b (insidePlainCall m s) s := by
   cases m with
   | native => exact around_some (plain_eq (b .native) (hb .native) s)
+  | refused => exact around_some (plain_eq (b .native) (hb .native) s)
   | converted rec =>
     cases hh : s.stack.head? with
     | none =>
@@ -70,59 +91,54 @@ theorem plainCall_around (m : Mode) (b : MComp) (hb : MBal b) (s : TState) :
 theorem plainCall_bal (m : Mode) (b : MComp) (hb : MBal b) : Bal (plainCall m b) :=
   fun s => around_bal (plainCall_around m b hb s)
 
-theorem convertedCall_around (ur rec : Bool) (b : MComp) (hb : MBal b) (s : TState) :
-    Around (convertedCall ur rec b) b (insideConvertedCall ur rec s) s := by
-  unfold insideConvertedCall
+theorem convertedCall_around (ur rec feat : Bool) (b : MComp) (hb : MBal b) (hrf : Refuses b) (s : TState) :
+    Around (convertedCall ur rec feat b) b (insideConvertedCall ur rec feat s) s := by
   cases hh : s.stack.head? with
-  | none => exact around_none (by simp [convertedCall, hh])
+  | none =>
+    have hi : insideConvertedCall ur rec feat s = none := by simp [insideConvertedCall, hh]
+    rw [hi]; exact around_none (by simp [convertedCall, hh])
   | some e =>
     by_cases hd : e.status = .disabled
-    · simp only [hd, if_true]
-      apply around_some
-      simp only [convertedCall, hh, hd, if_true]
-      exact plain_eq _ (hb _) s
-    · cases ur
-      · simp only [hd, if_false]
-        apply around_some
-        simp only [convertedCall, hh, hd, if_false, functionScope]
-        exact plain_eq _ (hb _) s
-      · simp only [hd, if_false, if_true]
-        apply around_some
-        simp only [convertedCall, hh, hd, if_false, functionScope, if_true]
-        exact withFresh_eq _ _ (hb _) s
+    · have hi : insideConvertedCall ur rec feat s = some (s, .native) := by simp [insideConvertedCall, hh, hd]
+      have hw : convertedCall ur rec feat b s = b .native s := by simp [convertedCall, hh, hd]
+      rw [hi]; exact around_some (hw ▸ plain_eq _ (hb _) s)
+    · have hi : insideConvertedCall ur rec feat s = some (insideScope ur feat (.converted rec) s) := by
+        simp [insideConvertedCall, hh, hd]
+      have hw : convertedCall ur rec feat b s = fsWith ur feat (b (.converted rec)) s := by simp [convertedCall, hh, hd]
+      have := fsWith_around ur feat (.converted rec) b hb hrf s
+      unfold Around at this ⊢
+      rw [hi, hw]; exact this
 
-theorem convertedCall_bal (ur rec : Bool) (b : MComp) (hb : MBal b) : Bal (convertedCall ur rec b) :=
-  fun s => around_bal (convertedCall_around ur rec b hb s)
+theorem convertedCall_bal (ur rec feat : Bool) (b : MComp) (hb : MBal b) (hrf : Refuses b) : Bal (convertedCall ur rec feat b) :=
+  fun s => around_bal (convertedCall_around ur rec feat b hb hrf s)
 
-theorem insideConvertedCall_push_ne_none (ur rec : Bool) (e : Entry) (s : TState) :
-    insideConvertedCall ur rec (push e s) ≠ none := by
+theorem insideConvertedCall_push_ne_none (ur rec feat : Bool) (e : Entry) (s : TState) :
+    insideConvertedCall ur rec feat (push e s) ≠ none := by
   simp only [insideConvertedCall, push, List.head?_cons]
-  split
-  · simp
-  · split <;> simp
+  split <;> simp
 
-theorem convertW_around (ur rec : Bool) (c : Option CtxRef) (b : MComp) (hb : MBal b) (s : TState) :
-    Around (convertW ur rec c b) b (insideConvert ur rec c s) s := by
+theorem convertW_around (ur rec feat : Bool) (c : Option CtxRef) (b : MComp) (hb : MBal b) (hrf : Refuses b) (s : TState) :
+    Around (convertW ur rec feat c b) b (insideConvert ur rec feat c s) s := by
   cases c with
-  | none => exact convertedCall_around ur rec b hb s
+  | none => exact convertedCall_around ur rec feat b hb hrf s
   | some r =>
     cases hr : r.get s.stack with
     | none =>
-      have hi : insideConvert ur rec (some r) s = none := by simp [insideConvert, hr]
+      have hi : insideConvert ur rec feat (some r) s = none := by simp [insideConvert, hr]
       rw [hi]; exact around_none (by simp [convertW, hr])
     | some e =>
-      have hi : insideConvert ur rec (some r) s = insideConvertedCall ur rec (push e s) := by simp [insideConvert, hr]
-      have hw : convertW ur rec (some r) b s = withEntry e (convertedCall ur rec b) s := by simp [convertW, hr]
-      have := convertedCall_around ur rec b hb (push e s)
+      have hi : insideConvert ur rec feat (some r) s = insideConvertedCall ur rec feat (push e s) := by simp [insideConvert, hr]
+      have hw : convertW ur rec feat (some r) b s = withEntry e (convertedCall ur rec feat b) s := by simp [convertW, hr]
+      have := convertedCall_around ur rec feat b hb hrf (push e s)
       rw [hi]
       unfold Around at this ⊢
-      rw [hw, withEntry_eq e _ (convertedCall_bal ur rec b hb)]
+      rw [hw, withEntry_eq e _ (convertedCall_bal ur rec feat b hb hrf)]
       split at this
       · rename_i heq
-        exact absurd heq (insideConvertedCall_push_ne_none ur rec e s)
+        exact absurd heq (insideConvertedCall_push_ne_none ur rec feat e s)
       · rw [this]
 
-theorem wrap_around (k : Kind) (m : Mode) (b : MComp) (hb : MBal b) (s : TState) :
+theorem wrap_around (k : Kind) (m : Mode) (b : MComp) (hb : MBal b) (hrf : Refuses b) (s : TState) :
     Around (wrap k m b) b (inside k m s) s := by
   cases k with
   | plain => exact plainCall_around m b hb s
@@ -139,6 +155,7 @@ theorem wrap_around (k : Kind) (m : Mode) (b : MComp) (hb : MBal b) (s : TState)
         intro m'
         cases m' with
         | native => exact ⟨_, rfl⟩
+        | refused => exact ⟨_, rfl⟩
         | converted rec => exact ⟨calleeMode rec ⟨.fresh s.next, st⟩, by simp [insidePlainCall, pushFresh, push]⟩
       have hcomb : ∀ m', Around (withFresh st (plainCall m' b)) b (insidePlainCall m' (pushFresh st s)) s := by
         intro m'
@@ -149,6 +166,7 @@ theorem wrap_around (k : Kind) (m : Mode) (b : MComp) (hb : MBal b) (s : TState)
         rw [hblock m', h2]
       cases m with
       | native => exact hcomb .native
+      | refused => exact hcomb .native
       | converted rec =>
         cases hh : s.stack.head? with
         | none =>
@@ -162,12 +180,9 @@ theorem wrap_around (k : Kind) (m : Mode) (b : MComp) (hb : MBal b) (s : TState)
           have := hcomb (calleeMode rec e)
           unfold Around at this ⊢
           rw [hi, hw]; exact this
-  | functionScope ur =>
-    cases ur
-    · exact around_some (plain_eq _ (hb _) s)
-    · exact around_some (withFresh_eq _ _ (hb _) s)
-  | toGraph rec lam => exact around_some (withFresh_eq _ _ (hb _) s)
-  | convert ur rec c => exact convertW_around ur rec c b hb s
+  | functionScope ur feat => exact fsWith_around ur feat .native b hb hrf s
+  | toGraph rec lam feat => exact fsWith_around true feat _ b hb hrf s
+  | convert ur rec feat c => exact convertW_around ur rec feat c b hb hrf s
   | internalConvert r cbd ur =>
     cases hr : r.get s.stack with
     | none =>
@@ -176,9 +191,9 @@ theorem wrap_around (k : Kind) (m : Mode) (b : MComp) (hb : MBal b) (s : TState)
     | some e =>
       cases hs : e.status with
       | enabled =>
-        have hw : wrap (.internalConvert r cbd ur) m b s = convertW ur true (some (.obj e)) b s := by simp [wrap, hr, hs]
-        have hi : inside (.internalConvert r cbd ur) m s = insideConvert ur true (some (.obj e)) s := by simp [inside, hr, hs]
-        have := convertW_around ur true (some (.obj e)) b hb s
+        have hw : wrap (.internalConvert r cbd ur) m b s = convertW ur true false (some (.obj e)) b s := by simp [wrap, hr, hs]
+        have hi : inside (.internalConvert r cbd ur) m s = insideConvert ur true false (some (.obj e)) s := by simp [inside, hr, hs]
+        have := convertW_around ur true false (some (.obj e)) b hb hrf s
         unfold Around at this ⊢
         rw [hi, hw]; exact this
       | disabled =>
@@ -190,23 +205,37 @@ theorem wrap_around (k : Kind) (m : Mode) (b : MComp) (hb : MBal b) (s : TState)
         · have hw : wrap (.internalConvert r false ur) m b s = withFresh .unspecified (b .native) s := by simp [wrap, hr, hs]
           have hi : inside (.internalConvert r false ur) m s = some (pushFresh .unspecified s, .native) := by simp [inside, hr, hs]
           rw [hi]; exact around_some (hw ▸ withFresh_eq _ _ (hb _) s)
-        · have hw : wrap (.internalConvert r true ur) m b s = convertW ur true (some (.obj e)) b s := by simp [wrap, hr, hs]
-          have hi : inside (.internalConvert r true ur) m s = insideConvert ur true (some (.obj e)) s := by simp [inside, hr, hs]
-          have := convertW_around ur true (some (.obj e)) b hb s
+        · have hw : wrap (.internalConvert r true ur) m b s = convertW ur true false (some (.obj e)) b s := by simp [wrap, hr, hs]
+          have hi : inside (.internalConvert r true ur) m s = insideConvert ur true false (some (.obj e)) s := by simp [inside, hr, hs]
+          have := convertW_around ur true false (some (.obj e)) b hb hrf s
           unfold Around at this ⊢
           rw [hi, hw]; exact this
 
-theorem wrap_bal (k : Kind) (m : Mode) (b : MComp) (hb : MBal b) : Bal (wrap k m b) :=
-  fun s => around_bal (wrap_around k m b hb s)
+theorem wrap_bal (k : Kind) (m : Mode) (b : MComp) (hb : MBal b) (hrf : Refuses b) : Bal (wrap k m b) :=
+  fun s => around_bal (wrap_around k m b hb hrf s)
 
-theorem bodyC_bal (p : Path) (ca : Bool) (m : Mode) (b : Comp) (hb : Bal b) : Bal (bodyC p ca m b) := by
+theorem bodyC_refused (p : Path) (ca : Bool) (b : Comp) (s : TState) : bodyC p ca .refused b s = ⟨s, some .rejected, []⟩ := by
+  simp [bodyC]
+
+theorem bodyC_of_ne (p : Path) (ca : Bool) (m : Mode) (b : Comp) (s : TState) (hm : m ≠ .refused) :
+    bodyC p ca m b s = bodyCore p ca m b s := by
+  simp [bodyC, hm]
+
+theorem bodyCore_bal (p : Path) (ca : Bool) (m : Mode) (b : Comp) (hb : Bal b) : Bal (bodyCore p ca m b) := by
   intro s
   have := hb s
-  simp only [bodyC]
+  simp only [bodyCore]
   split
   · exact this
   · split <;> exact this
+  · split <;> exact this
   · exact this
+
+theorem bodyC_bal (p : Path) (ca : Bool) (m : Mode) (b : Comp) (hb : Bal b) : Bal (bodyC p ca m b) := by
+  intro s
+  by_cases hm : m = .refused
+  · subst hm; rw [bodyC_refused]
+  · rw [bodyC_of_ne _ _ _ _ _ hm]; exact bodyCore_bal p ca m b hb s
 
 /-- The body of node `k cs ra ca` at `p`, as a computation depending on its mode. -/
 abbrev bodyOf (cs : List Tree) (ra : Option Nat) (ca : Bool) (p : Path) : MComp :=
@@ -216,7 +245,7 @@ mutual
 theorem runNode_bal : ∀ (t : Tree) (p : Path) (m : Mode), Bal (runNode t p m)
   | .node k cs ra ca, p, m => by
     simp only [runNode]
-    exact wrap_bal k m _ (fun m' => bodyC_bal p ca m' _ (runKids_bal cs p 0 ra m'))
+    exact wrap_bal k m _ (fun m' => bodyC_bal p ca m' _ (runKids_bal cs p 0 ra m')) (fun s => bodyC_refused p ca _ s)
 theorem runKids_bal : ∀ (cs : List Tree) (p : Path) (i : Nat) (ra : Option Nat) (m : Mode), Bal (runKids cs p i ra m)
   | [], p, i, ra, m => by
     intro s; simp only [runKids]; split <;> rfl
@@ -236,10 +265,14 @@ theorem bodyOf_bal (cs : List Tree) (ra : Option Nat) (ca : Bool) (p : Path) : M
   fun m => bodyC_bal p ca m _ (runKids_bal cs p 0 ra m)
 
 /-- `runNode` in one equation: the wrapper reaches `inside k m s`, the body runs there, the list is restored. -/
+theorem bodyOf_refuses (cs : List Tree) (ra : Option Nat) (ca : Bool) (p : Path) : Refuses (bodyOf cs ra ca p) :=
+  fun s => bodyC_refused p ca _ s
+
 theorem runNode_around (k : Kind) (cs : List Tree) (ra : Option Nat) (ca : Bool) (p : Path) (m : Mode) (s : TState) :
     Around (runNode (.node k cs ra ca) p m) (bodyOf cs ra ca p) (inside k m s) s := by
-  have := wrap_around k m (bodyOf cs ra ca p) (bodyOf_bal cs ra ca p) s
+  have := wrap_around k m (bodyOf cs ra ca p) (bodyOf_bal cs ra ca p) (bodyOf_refuses cs ra ca p) s
   simpa [runNode, bodyOf] using this
+
 
 /-! ## Part 2 — observations -/
 
@@ -256,27 +289,42 @@ def OwnedBy (p : Path) (b : Comp) : Prop := ∀ s, ∀ o ∈ (b s).log, p <:+ o.
 theorem bodyC_owned (p : Path) (ca : Bool) (m : Mode) (b : Comp) (hb : OwnedBy p b) : OwnedBy p (bodyC p ca m b) := by
   intro s o ho
   have hb := hb s
-  simp only [bodyC] at ho
+  by_cases hm : m = .refused
+  · subst hm; rw [bodyC_refused] at ho; simp at ho
+  rw [bodyC_of_ne _ _ _ _ _ hm] at ho
+  simp only [bodyCore] at ho
+  have own : ∀ pt st, p <:+ (obsAt p pt m st).owner := fun _ _ => List.suffix_refl _
   split at ho
   · simp only [List.mem_cons, List.mem_append, List.not_mem_nil, or_false] at ho
     rcases ho with rfl | ho | rfl
-    · exact List.suffix_refl _
+    · exact own _ _
     · exact hb o ho
-    · exact List.suffix_refl _
+    · exact own _ _
   · split at ho
     · simp only [List.mem_cons, List.mem_append, List.not_mem_nil, or_false] at ho
       rcases ho with rfl | ho | rfl | rfl
-      · exact List.suffix_refl _
+      · exact own _ _
       · exact hb o ho
-      · exact List.suffix_refl _
-      · exact List.suffix_refl _
+      · exact own _ _
+      · exact own _ _
     · simp only [List.mem_cons] at ho
       rcases ho with rfl | ho
-      · exact List.suffix_refl _
+      · exact own _ _
+      · exact hb o ho
+  · split at ho
+    · simp only [List.mem_cons, List.mem_append, List.not_mem_nil, or_false] at ho
+      rcases ho with rfl | ho | rfl | rfl
+      · exact own _ _
+      · exact hb o ho
+      · exact own _ _
+      · exact own _ _
+    · simp only [List.mem_cons] at ho
+      rcases ho with rfl | ho
+      · exact own _ _
       · exact hb o ho
   · simp only [List.mem_cons] at ho
     rcases ho with rfl | ho
-    · exact List.suffix_refl _
+    · exact own _ _
     · exact hb o ho
 
 mutual
@@ -349,20 +397,37 @@ theorem bodyOf_sees (cs : List Tree) (ra : Option Nat) (ca : Bool) (p : Path) (m
   intro s o ho hp
   have hk := runKids_sees cs p 0 ra m s
   have hb := runKids_bal cs p 0 ra m s
-  simp only [bodyOf, bodyC] at ho
+  by_cases hm : m = .refused
+  · subst hm; simp only [bodyOf] at ho; rw [bodyC_refused] at ho; simp at ho
+  simp only [bodyOf] at ho
+  rw [bodyC_of_ne _ _ _ _ _ hm] at ho
+  simp only [bodyCore] at ho
+  have late : ∀ pt, (obsAt p pt m (runKids cs p 0 ra m s).st).top = s.stack.head? ∧
+      (obsAt p pt m (runKids cs p 0 ra m s).st).conv = m.isConverted := fun _ => ⟨by simp [obsAt, hb], rfl⟩
   split at ho
   · simp only [List.mem_cons, List.mem_append, List.not_mem_nil, or_false] at ho
     rcases ho with rfl | ho | rfl
     · exact ⟨rfl, rfl⟩
     · exact hk o ho hp
-    · exact ⟨by simp [obsAt, hb], rfl⟩
+    · exact late _
   · split at ho
     · simp only [List.mem_cons, List.mem_append, List.not_mem_nil, or_false] at ho
       rcases ho with rfl | ho | rfl | rfl
       · exact ⟨rfl, rfl⟩
       · exact hk o ho hp
-      · exact ⟨by simp [obsAt, hb], rfl⟩
-      · exact ⟨by simp [obsAt, hb], rfl⟩
+      · exact late _
+      · exact late _
+    · simp only [List.mem_cons] at ho
+      rcases ho with rfl | ho
+      · exact ⟨rfl, rfl⟩
+      · exact hk o ho hp
+  · split at ho
+    · simp only [List.mem_cons, List.mem_append, List.not_mem_nil, or_false] at ho
+      rcases ho with rfl | ho | rfl | rfl
+      · exact ⟨rfl, rfl⟩
+      · exact hk o ho hp
+      · exact late _
+      · exact late _
     · simp only [List.mem_cons] at ho
       rcases ho with rfl | ho
       · exact ⟨rfl, rfl⟩
@@ -372,19 +437,22 @@ theorem bodyOf_sees (cs : List Tree) (ra : Option Nat) (ca : Bool) (p : Path) (m
     · exact ⟨rfl, rfl⟩
     · exact hk o ho hp
 
-
-
 theorem insidePlainCall_some (m : Mode) (s : TState) (h : s.stack ≠ []) :
     ∃ m', insidePlainCall m s = some (s, m') := by
   cases m with
   | native => exact ⟨_, rfl⟩
+  | refused => exact ⟨_, rfl⟩
   | converted rec =>
     cases hs : s.stack with
     | nil => exact absurd hs h
     | cons e rest => exact ⟨calleeMode rec e, by simp [insidePlainCall, hs]⟩
 
-theorem insideConvertedCall_some (ur rec : Bool) (s : TState) (h : s.stack ≠ []) :
-    ∃ s' m', insideConvertedCall ur rec s = some (s', m') ∧ s'.stack ≠ [] := by
+theorem insideScope_ne_nil (ur feat : Bool) (mOk : Mode) (s : TState) (h : s.stack ≠ []) :
+    (insideScope ur feat mOk s).1.stack ≠ [] := by
+  cases feat <;> cases ur <;> simp [insideScope, pushFresh, push, h]
+
+theorem insideConvertedCall_some (ur rec feat : Bool) (s : TState) (h : s.stack ≠ []) :
+    ∃ s' m', insideConvertedCall ur rec feat s = some (s', m') ∧ s'.stack ≠ [] := by
   unfold insideConvertedCall
   cases hs : s.stack with
   | nil => exact absurd hs h
@@ -392,9 +460,7 @@ theorem insideConvertedCall_some (ur rec : Bool) (s : TState) (h : s.stack ≠ [
     simp only [List.head?_cons]
     split
     · exact ⟨s, _, rfl, h⟩
-    · split
-      · exact ⟨_, _, rfl, by simp [pushFresh, push]⟩
-      · exact ⟨s, _, rfl, h⟩
+    · exact ⟨_, _, rfl, insideScope_ne_nil ur feat _ s h⟩
 
 theorem get_some_of_ne_nil (r : CtxRef) (s : TState) (h : s.stack ≠ []) : ∃ e, r.get s.stack = some e := by
   cases r with
@@ -404,14 +470,14 @@ theorem get_some_of_ne_nil (r : CtxRef) (s : TState) (h : s.stack ≠ []) : ∃ 
     | nil => exact absurd hs h
     | cons e rest => exact ⟨e, rfl⟩
 
-theorem insideConvert_some (ur rec : Bool) (c : Option CtxRef) (s : TState) (h : s.stack ≠ []) :
-    ∃ s' m', insideConvert ur rec c s = some (s', m') ∧ s'.stack ≠ [] := by
+theorem insideConvert_some (ur rec feat : Bool) (c : Option CtxRef) (s : TState) (h : s.stack ≠ []) :
+    ∃ s' m', insideConvert ur rec feat c s = some (s', m') ∧ s'.stack ≠ [] := by
   cases c with
-  | none => exact insideConvertedCall_some ur rec s h
+  | none => exact insideConvertedCall_some ur rec feat s h
   | some r =>
     obtain ⟨e, hr⟩ := get_some_of_ne_nil r s h
-    have hi : insideConvert ur rec (some r) s = insideConvertedCall ur rec (push e s) := by simp [insideConvert, hr]
-    rw [hi]; exact insideConvertedCall_some ur rec (push e s) (by simp [push])
+    have hi : insideConvert ur rec feat (some r) s = insideConvertedCall ur rec feat (push e s) := by simp [insideConvert, hr]
+    rw [hi]; exact insideConvertedCall_some ur rec feat (push e s) (by simp [push])
 
 /-- On a non-empty context list every wrapper reaches its body (on a non-empty list). -/
 theorem inside_some (k : Kind) (m : Mode) (s : TState) (h : s.stack ≠ []) :
@@ -428,18 +494,15 @@ theorem inside_some (k : Kind) (m : Mode) (s : TState) (h : s.stack ≠ []) :
     · obtain ⟨m', hm⟩ := insidePlainCall_some m s h
       obtain ⟨m'', hm'⟩ := insidePlainCall_some m' (pushFresh st s) (by simp [pushFresh, push])
       exact ⟨pushFresh st s, m'', by simp [inside, hm, hm'], by simp [pushFresh, push]⟩
-  | functionScope ur =>
-    cases ur
-    · exact ⟨s, _, rfl, h⟩
-    · exact ⟨_, _, rfl, by simp [pushFresh, push]⟩
-  | toGraph rec lam => exact ⟨_, _, rfl, by simp [pushFresh, push]⟩
-  | convert ur rec c => exact insideConvert_some ur rec c s h
+  | functionScope ur feat => exact ⟨_, _, rfl, insideScope_ne_nil ur feat _ s h⟩
+  | toGraph rec lam feat => exact ⟨_, _, rfl, insideScope_ne_nil true feat _ s h⟩
+  | convert ur rec feat c => exact insideConvert_some ur rec feat c s h
   | internalConvert r cbd ur =>
     obtain ⟨e, hr⟩ := get_some_of_ne_nil r s h
     cases hs : e.status with
     | enabled =>
-      have hi : inside (.internalConvert r cbd ur) m s = insideConvert ur true (some (.obj e)) s := by simp [inside, hr, hs]
-      rw [hi]; exact insideConvert_some _ _ _ s h
+      have hi : inside (.internalConvert r cbd ur) m s = insideConvert ur true false (some (.obj e)) s := by simp [inside, hr, hs]
+      rw [hi]; exact insideConvert_some _ _ _ _ s h
     | disabled =>
       have hi : inside (.internalConvert r cbd ur) m s = some (pushFresh .disabled s, .native) := by simp [inside, hr, hs]
       rw [hi]; exact ⟨_, _, rfl, by simp [pushFresh, push]⟩
@@ -447,22 +510,34 @@ theorem inside_some (k : Kind) (m : Mode) (s : TState) (h : s.stack ≠ []) :
       cases cbd
       · have hi : inside (.internalConvert r false ur) m s = some (pushFresh .unspecified s, .native) := by simp [inside, hr, hs]
         rw [hi]; exact ⟨_, _, rfl, by simp [pushFresh, push]⟩
-      · have hi : inside (.internalConvert r true ur) m s = insideConvert ur true (some (.obj e)) s := by simp [inside, hr, hs]
-        rw [hi]; exact insideConvert_some _ _ _ s h
+      · have hi : inside (.internalConvert r true ur) m s = insideConvert ur true false (some (.obj e)) s := by simp [inside, hr, hs]
+        rw [hi]; exact insideConvert_some _ _ _ _ s h
 
-/-- On a non-empty list, only the harness' own exception can come out. -/
-def Safe (b : Comp) : Prop := ∀ s, s.stack ≠ [] → ∀ e, (b s).out = some e → ∃ q, e = .boom q
+/-- An exception the user code asked for: the harness' own, or the function scope refusing the options. -/
+def Exn.isUser : Exn → Prop
+  | .boom _ => True
+  | .rejected => True
+  | _ => False
+
+/-- On a non-empty list, only such exceptions can come out. -/
+def Safe (b : Comp) : Prop := ∀ s, s.stack ≠ [] → ∀ e, (b s).out = some e → e.isUser
 
 theorem bodyC_safe (p : Path) (ca : Bool) (m : Mode) (b : Comp) (hb : Safe b) : Safe (bodyC p ca m b) := by
   intro s hs e he
   have hb := hb s hs
-  simp only [bodyC] at he
+  by_cases hm : m = .refused
+  · subst hm; rw [bodyC_refused] at he; simp only [Option.some.injEq] at he; subst he; trivial
+  rw [bodyC_of_ne _ _ _ _ _ hm] at he
+  simp only [bodyCore] at he
   split at he
   · simp at he
   · split at he
     · simp at he
-    · simp only [Option.some.injEq] at he; exact ⟨_, he.symm⟩
-  · rename_i x e' hne hout
+    · simp only [Option.some.injEq] at he; subst he; trivial
+  · split at he
+    · simp at he
+    · simp only [Option.some.injEq] at he; subst he; trivial
+  · rename_i x e' hne1 hne2 hout
     simp only [Option.some.injEq] at he
     subst he
     exact hb e' hout
@@ -482,13 +557,13 @@ theorem runKids_safe : ∀ (cs : List Tree) (p : Path) (i : Nat) (ra : Option Na
     intro s _ e he
     simp only [runKids] at he
     split at he
-    · simp only [Option.some.injEq] at he; exact ⟨_, he.symm⟩
+    · simp only [Option.some.injEq] at he; subst he; trivial
     · simp at he
   | c :: cs, p, i, ra, m => by
     intro s hs e he
     simp only [runKids] at he
     split at he
-    · simp only [Option.some.injEq] at he; exact ⟨_, he.symm⟩
+    · simp only [Option.some.injEq] at he; subst he; trivial
     · have h1 := runNode_safe c (i :: p) m s hs
       have hb1 := runNode_bal c (i :: p) m s
       split at he
@@ -498,6 +573,7 @@ theorem runKids_safe : ∀ (cs : List Tree) (p : Path) (i : Nat) (ra : Option Na
         subst he
         exact h1 e' hout
 end
+
 
 
 /-! ## Part 3 — the machine computes the big-step semantics -/
@@ -552,11 +628,19 @@ theorem sim_body (cs : List Tree) (ra : Option Nat) (ca : Bool) (p : Path) (m : 
     (hk : Sim [.kids cs p 0 ra m] (runKids cs p 0 ra m)) :
     Sim (bodyFrames cs ra ca p m) (bodyOf cs ra ca p m) := by
   intro K s L
+  by_cases hm : m = .refused
+  · subst hm
+    refine Reach.one ?_
+    simp [bodyFrames, bodyOf, bodyC, step, stepOk]
+  have hF : bodyFrames cs ra ca p m = [.inn p m, .kids cs p 0 ra m, .handler p ca m, .out p m] := by simp [bodyFrames, hm]
+  rw [hF]
   -- in
   refine Reach.head (b := ⟨.kids cs p 0 ra m :: .handler p ca m :: .out p m :: K, none, s, L ++ [obsAt p .inn m s]⟩) rfl ?_
   -- try-block
   refine Reach.trans (hk (.handler p ca m :: .out p m :: K) s (L ++ [obsAt p .inn m s])) ?_
-  simp only [bodyOf, bodyC]
+  simp only [bodyOf]
+  rw [bodyC_of_ne _ _ _ _ _ hm]
+  simp only [bodyCore]
   cases ho : (runKids cs p 0 ra m s).out with
   | none =>
     refine Reach.head (b := ⟨.out p m :: K, none, (runKids cs p 0 ra m s).st, _⟩) rfl ?_
@@ -569,6 +653,16 @@ theorem sim_body (cs : List Tree) (ra : Option Nat) (ca : Bool) (p : Path) (m : 
       cases ca
       · refine Reach.head (b := ⟨.out p m :: K, some (.boom q), (runKids cs p 0 ra m s).st, _⟩) rfl ?_
         refine Reach.head (b := ⟨K, some (.boom q), (runKids cs p 0 ra m s).st, _⟩) rfl ?_
+        simp only [List.append_assoc, List.cons_append, List.nil_append]
+        exact Reach.refl _
+      · refine Reach.head (b := ⟨.out p m :: K, none, (runKids cs p 0 ra m s).st, _⟩) rfl ?_
+        refine Reach.head (b := ⟨K, none, (runKids cs p 0 ra m s).st, _⟩) rfl ?_
+        simp only [List.append_assoc, List.cons_append, List.nil_append]
+        exact Reach.refl _
+    | rejected =>
+      cases ca
+      · refine Reach.head (b := ⟨.out p m :: K, some .rejected, (runKids cs p 0 ra m s).st, _⟩) rfl ?_
+        refine Reach.head (b := ⟨K, some .rejected, (runKids cs p 0 ra m s).st, _⟩) rfl ?_
         simp only [List.append_assoc, List.cons_append, List.nil_append]
         exact Reach.refl _
       · refine Reach.head (b := ⟨.out p m :: K, none, (runKids cs p 0 ra m s).st, _⟩) rfl ?_
@@ -590,10 +684,31 @@ theorem sim_body (cs : List Tree) (ra : Option Nat) (ca : Bool) (p : Path) (m : 
 def BodySim (cs : List Tree) (ra : Option Nat) (ca : Bool) (p : Path) : Prop :=
   ∀ m, Sim (bodyFrames cs ra ca p m) (bodyOf cs ra ca p m)
 
+/-- With the code under test, the machine's scope entry is: refuse, or the conditional push. -/
+theorem scopeFrames_eq (ur feat : Bool) (mOk : Mode) (cs : List Tree) (ra : Option Nat) (ca : Bool) (p : Path)
+    (K : List Frame) (s : TState) (L : List Obs) :
+    scopeFrames ur feat mOk cs ra ca p K s L =
+      if feat then ⟨K, some .rejected, s, L⟩
+      else if ur then freshFrames .enabled (bodyFrames cs ra ca p mOk) K s L
+      else ⟨bodyFrames cs ra ca p mOk ++ K, none, s, L⟩ := by
+  cases feat <;> cases ur <;> simp [scopeFrames, Gen.fsInitSteps, Gen.fsEnterSteps, runEnter, freshFrames, push]
+
+theorem sim_scope (ur feat : Bool) (mOk : Mode) (cs : List Tree) (ra : Option Nat) (ca : Bool) (p : Path)
+    (hb : BodySim cs ra ca p) (K : List Frame) (s : TState) (L : List Obs) :
+    Reach (scopeFrames ur feat mOk cs ra ca p K s L)
+      ⟨K, (fsWith ur feat (bodyOf cs ra ca p mOk) s).out, (fsWith ur feat (bodyOf cs ra ca p mOk) s).st,
+       L ++ (fsWith ur feat (bodyOf cs ra ca p mOk) s).log⟩ := by
+  rw [scopeFrames_eq, fsWith_eq]
+  cases feat
+  · cases ur
+    · simpa [functionScope] using hb mOk K s L
+    · simpa [functionScope] using sim_freshFrames .enabled _ _ (hb mOk) K s L
+  · simp; exact Reach.refl _
+
 /-- The `cc` frame simulates `convertedCall`. -/
-theorem sim_cc (ur rec : Bool) (cs : List Tree) (ra : Option Nat) (ca : Bool) (p : Path)
+theorem sim_cc (ur rec feat : Bool) (cs : List Tree) (ra : Option Nat) (ca : Bool) (p : Path)
     (hb : BodySim cs ra ca p) :
-    Sim [.cc ur rec cs ra ca p] (convertedCall ur rec (bodyOf cs ra ca p)) := by
+    Sim [.cc ur rec feat cs ra ca p] (convertedCall ur rec feat (bodyOf cs ra ca p)) := by
   intro K s L
   cases hh : s.stack.head? with
   | none =>
@@ -602,17 +717,12 @@ theorem sim_cc (ur rec : Bool) (cs : List Tree) (ra : Option Nat) (ca : Bool) (p
   | some e =>
     by_cases hd : e.status = .disabled
     · refine Reach.head (b := ⟨bodyFrames cs ra ca p .native ++ K, none, s, L⟩) (by simp [step, stepOk, hh, hd]) ?_
-      have : convertedCall ur rec (bodyOf cs ra ca p) s = bodyOf cs ra ca p .native s := by simp [convertedCall, hh, hd]
+      have : convertedCall ur rec feat (bodyOf cs ra ca p) s = bodyOf cs ra ca p .native s := by simp [convertedCall, hh, hd]
       rw [this]; exact hb .native K s L
-    · cases ur
-      · refine Reach.head (b := ⟨bodyFrames cs ra ca p (.converted rec) ++ K, none, s, L⟩) (by simp [step, stepOk, hh, hd]) ?_
-        have : convertedCall false rec (bodyOf cs ra ca p) s = bodyOf cs ra ca p (.converted rec) s := by
-          simp [convertedCall, hh, hd, functionScope]
-        rw [this]; exact hb _ K s L
-      · refine Reach.head (b := freshFrames .enabled (bodyFrames cs ra ca p (.converted rec)) K s L) (by simp [step, stepOk, hh, hd]) ?_
-        have : convertedCall true rec (bodyOf cs ra ca p) s = withFresh .enabled (bodyOf cs ra ca p (.converted rec)) s := by
-          simp [convertedCall, hh, hd, functionScope]
-        rw [this]; exact sim_freshFrames _ _ _ (hb _) K s L
+    · refine Reach.head (b := scopeFrames ur feat (.converted rec) cs ra ca p K s L) (by simp [step, stepOk, hh, hd]) ?_
+      have : convertedCall ur rec feat (bodyOf cs ra ca p) s = fsWith ur feat (bodyOf cs ra ca p (.converted rec)) s := by
+        simp [convertedCall, hh, hd]
+      rw [this]; exact sim_scope ur feat _ cs ra ca p hb K s L
 
 /-- The `pc` frame simulates `plainCall`. -/
 theorem sim_pc (m : Mode) (cs : List Tree) (ra : Option Nat) (ca : Bool) (p : Path)
@@ -621,6 +731,9 @@ theorem sim_pc (m : Mode) (cs : List Tree) (ra : Option Nat) (ca : Bool) (p : Pa
   intro K s L
   cases m with
   | native =>
+    refine Reach.head (b := ⟨bodyFrames cs ra ca p .native ++ K, none, s, L⟩) (by simp [step, stepOk, insidePlainCall]) ?_
+    exact hb .native K s L
+  | refused =>
     refine Reach.head (b := ⟨bodyFrames cs ra ca p .native ++ K, none, s, L⟩) (by simp [step, stepOk, insidePlainCall]) ?_
     exact hb .native K s L
   | converted rec =>
@@ -638,26 +751,26 @@ theorem sim_pc (m : Mode) (cs : List Tree) (ra : Option Nat) (ca : Bool) (p : Pa
 theorem step_call (k : Kind) (m : Mode) (cs : List Tree) (ra : Option Nat) (ca : Bool) (p : Path) (K : List Frame) (s : TState) (L : List Obs) :
     step ⟨.call (.node k cs ra ca) p m :: K, none, s, L⟩ = callStep k m cs ra ca p K s L := rfl
 
-theorem sim_convertW (ur rec : Bool) (c : Option CtxRef) (cs : List Tree) (ra : Option Nat) (ca : Bool) (p : Path)
+theorem sim_convertW (ur rec feat : Bool) (c : Option CtxRef) (cs : List Tree) (ra : Option Nat) (ca : Bool) (p : Path)
     (hb : BodySim cs ra ca p) (K : List Frame) (s : TState) (L : List Obs) :
-    Reach (convertFrames ur rec c cs ra ca p K s L)
-      ⟨K, (convertW ur rec c (bodyOf cs ra ca p) s).out, (convertW ur rec c (bodyOf cs ra ca p) s).st,
-       L ++ (convertW ur rec c (bodyOf cs ra ca p) s).log⟩ := by
+    Reach (convertFrames ur rec feat c cs ra ca p K s L)
+      ⟨K, (convertW ur rec feat c (bodyOf cs ra ca p) s).out, (convertW ur rec feat c (bodyOf cs ra ca p) s).st,
+       L ++ (convertW ur rec feat c (bodyOf cs ra ca p) s).log⟩ := by
   cases c with
-  | none => exact sim_cc ur rec cs ra ca p hb K s L
+  | none => exact sim_cc ur rec feat cs ra ca p hb K s L
   | some r =>
     cases hr : r.get s.stack with
     | none =>
-      have h1 : convertFrames ur rec (some r) cs ra ca p K s L = ⟨K, some .index, s, L⟩ := by simp [convertFrames, hr]
-      have h2 : convertW ur rec (some r) (bodyOf cs ra ca p) s = ⟨s, some .index, []⟩ := by simp [convertW, hr]
+      have h1 : convertFrames ur rec feat (some r) cs ra ca p K s L = ⟨K, some .index, s, L⟩ := by simp [convertFrames, hr]
+      have h2 : convertW ur rec feat (some r) (bodyOf cs ra ca p) s = ⟨s, some .index, []⟩ := by simp [convertW, hr]
       rw [h1, h2]; simp; exact Reach.refl _
     | some e =>
-      have h1 : convertFrames ur rec (some r) cs ra ca p K s L = ⟨[.cc ur rec cs ra ca p] ++ .exit e.id :: K, none, push e s, L⟩ := by
+      have h1 : convertFrames ur rec feat (some r) cs ra ca p K s L = ⟨[.cc ur rec feat cs ra ca p] ++ .exit e.id :: K, none, push e s, L⟩ := by
         simp [convertFrames, hr]
-      have h2 : convertW ur rec (some r) (bodyOf cs ra ca p) s = withEntry e (convertedCall ur rec (bodyOf cs ra ca p)) s := by
+      have h2 : convertW ur rec feat (some r) (bodyOf cs ra ca p) s = withEntry e (convertedCall ur rec feat (bodyOf cs ra ca p)) s := by
         simp [convertW, hr]
       rw [h1, h2]
-      exact sim_withEntry e _ _ (sim_cc ur rec cs ra ca p hb) K s L
+      exact sim_withEntry e _ _ (sim_cc ur rec feat cs ra ca p hb) K s L
 
 /-- Calling a node that is not an `internalConvert`. -/
 theorem sim_call_basic (k : Kind) (m : Mode) (cs : List Tree) (ra : Option Nat) (ca : Bool) (p : Path)
@@ -679,6 +792,7 @@ theorem sim_call_basic (k : Kind) (m : Mode) (cs : List Tree) (ra : Option Nat) 
         have h2 : wrap (.withCtx st true) m (bodyOf cs ra ca p) s = ⟨s, some .index, []⟩ := by
           cases m with
           | native => simp [insidePlainCall] at hm
+          | refused => simp [insidePlainCall] at hm
           | converted rec =>
             cases hh : s.stack.head? with
             | none => simp [wrap, plainCall, hh]
@@ -691,6 +805,7 @@ theorem sim_call_basic (k : Kind) (m : Mode) (cs : List Tree) (ra : Option Nat) 
         have h2 : wrap (.withCtx st true) m (bodyOf cs ra ca p) s = withFresh st (plainCall m' (bodyOf cs ra ca p)) s := by
           cases m with
           | native => simp only [insidePlainCall, Option.some.injEq, Prod.mk.injEq] at hm; rw [← hm.2]; rfl
+          | refused => simp only [insidePlainCall, Option.some.injEq, Prod.mk.injEq] at hm; rw [← hm.2]; rfl
           | converted rec =>
             cases hh : s.stack.head? with
             | none => simp [insidePlainCall, hh] at hm
@@ -699,12 +814,9 @@ theorem sim_call_basic (k : Kind) (m : Mode) (cs : List Tree) (ra : Option Nat) 
               rw [← hm.2]; simp [wrap, plainCall, hh]
         rw [h1, h2]
         exact sim_freshFrames st _ _ (sim_pc m' cs ra ca p hb) K s L
-  | functionScope ur =>
-    cases ur
-    · exact hb _ K s L
-    · exact sim_freshFrames _ _ _ (hb _) K s L
-  | toGraph rec lam => exact sim_freshFrames _ _ _ (hb _) K s L
-  | convert ur rec c => exact sim_convertW ur rec c cs ra ca p hb K s L
+  | functionScope ur feat => exact sim_scope ur feat .native cs ra ca p hb K s L
+  | toGraph rec lam feat => exact sim_scope true feat _ cs ra ca p hb K s L
+  | convert ur rec feat c => exact sim_convertW ur rec feat c cs ra ca p hb K s L
   | internalConvert r cbd ur => exact absurd rfl (hk r cbd ur)
 
 theorem resolveInternal_basic (e : Entry) (cbd ur : Bool) : ∀ r cbd' ur', resolveInternal e cbd ur ≠ .internalConvert r cbd' ur' := by
@@ -737,9 +849,9 @@ theorem sim_call (k : Kind) (m : Mode) (cs : List Tree) (ra : Option Nat) (ca : 
   | doNotConvert => exact sim_call_basic _ m cs ra ca p hb (by intros; simp)
   | unspecified => exact sim_call_basic _ m cs ra ca p hb (by intros; simp)
   | withCtx st src => exact sim_call_basic _ m cs ra ca p hb (by intros; simp)
-  | functionScope ur => exact sim_call_basic _ m cs ra ca p hb (by intros; simp)
-  | toGraph rec lam => exact sim_call_basic _ m cs ra ca p hb (by intros; simp)
-  | convert ur rec c => exact sim_call_basic _ m cs ra ca p hb (by intros; simp)
+  | functionScope ur feat => exact sim_call_basic _ m cs ra ca p hb (by intros; simp)
+  | toGraph rec lam feat => exact sim_call_basic _ m cs ra ca p hb (by intros; simp)
+  | convert ur rec feat c => exact sim_call_basic _ m cs ra ca p hb (by intros; simp)
 
 mutual
 theorem runNode_sim : ∀ (t : Tree) (p : Path) (m : Mode), Sim [.call t p m] (runNode t p m)
@@ -812,6 +924,10 @@ theorem reach_done_stable {c c' : Cfg} {n : Nat} (hn : iter n c = c') (hd : c'.c
   obtain ⟨d, rfl⟩ := Nat.exists_eq_add_of_le h
   rw [iter_add, hn, iter_done d _ hd]
 
+theorem scopeFrames_log (ur feat : Bool) (mOk : Mode) (cs : List Tree) (ra : Option Nat) (ca : Bool) (p : Path)
+    (K : List Frame) (s : TState) (L : List Obs) : (scopeFrames ur feat mOk cs ra ca p K s L).log = L := by
+  rw [scopeFrames_eq]; cases feat <;> cases ur <;> simp [freshFrames]
+
 /-- A step only ever appends to the log. -/
 theorem step_log_prefix (c : Cfg) : c.log <+: (step c).log := by
   unfold step
@@ -835,21 +951,22 @@ theorem step_log_prefix (c : Cfg) : c.log <+: (step c).log := by
             cases src
             · exact List.prefix_refl _
             · simp only; split <;> exact List.prefix_refl _
-          | functionScope ur => cases ur <;> exact List.prefix_refl _
-          | toGraph rec lam => exact List.prefix_refl _
-          | convert ur rec c' =>
+          | functionScope ur feat => rw [scopeFrames_log]; exact List.prefix_refl _
+          | toGraph rec lam feat => rw [scopeFrames_log]; exact List.prefix_refl _
+          | convert ur rec feat c' =>
             simp only [convertFrames]
             cases c' with
             | none => exact List.prefix_refl _
             | some r => simp only; split <;> exact List.prefix_refl _
           | internalConvert r cbd ur => simp only; split <;> exact List.prefix_refl _
-      | cc ur rec cs ra ca p =>
+      | cc ur rec feat cs ra ca p =>
         simp only [stepOk]
         split
         · exact List.prefix_refl _
         · split
           · exact List.prefix_refl _
-          · split <;> exact List.prefix_refl _
+          · rw [scopeFrames_log]; exact List.prefix_refl _
+      | reject => exact List.prefix_refl _
       | pc m cs ra ca p =>
         simp only [stepOk]
         split <;> exact List.prefix_refl _
@@ -873,11 +990,15 @@ theorem step_log_prefix (c : Cfg) : c.log <+: (step c).log := by
         · split
           · exact List.prefix_append _ _
           · exact List.prefix_refl _
+        · split
+          · exact List.prefix_append _ _
+          · exact List.prefix_refl _
         · exact List.prefix_refl _
       | fin => exact List.prefix_append _ _
       | start => exact List.prefix_refl _
       | call t p m => exact List.prefix_refl _
-      | cc ur rec cs ra ca p => exact List.prefix_refl _
+      | cc ur rec feat cs ra ca p => exact List.prefix_refl _
+      | reject => exact List.prefix_refl _
       | pc m cs ra ca p => exact List.prefix_refl _
       | inn p m => exact List.prefix_refl _
       | kids cs p i ra m => exact List.prefix_refl _
@@ -889,6 +1010,7 @@ theorem iter_log_prefix (n : Nat) (c : Cfg) : c.log <+: (iter n c).log := by
   induction n generalizing c with
   | zero => exact List.prefix_refl _
   | succ n ih => exact List.IsPrefix.trans (step_log_prefix c) (ih (step c))
+
 
 
 
@@ -1000,24 +1122,24 @@ theorem filter_under_eq_nil {q : Path} {l : List Obs} (h : ∀ o ∈ l, under q 
 
 
 
-theorem insideConvertedCall_status (ur rec : Bool) (s0 s' : TState) (m' : Mode) (e : Entry)
-    (h0 : s0.stack.head? = some e) (h : insideConvertedCall ur rec s0 = some (s', m')) :
+theorem insideScope_cases (ur feat : Bool) (mOk : Mode) (s : TState) :
+    (feat = true ∧ insideScope ur feat mOk s = (s, .refused)) ∨
+    (feat = false ∧ ur = true ∧ insideScope ur feat mOk s = (pushFresh .enabled s, mOk)) ∨
+    (feat = false ∧ ur = false ∧ insideScope ur feat mOk s = (s, mOk)) := by
+  cases feat <;> cases ur <;> simp [insideScope]
+
+theorem insideConvertedCall_status (ur rec feat : Bool) (s0 s' : TState) (m' : Mode) (e : Entry)
+    (h0 : s0.stack.head? = some e) (h : insideConvertedCall ur rec feat s0 = some (s', m')) :
     (e.status = .disabled → s' = s0 ∧ m' = .native) ∧
-    (e.status ≠ .disabled → m' = .converted rec ∧
-      (ur = true → s'.stack.head? = some ⟨.fresh s0.next, .enabled⟩) ∧ (ur = false → s' = s0)) := by
+    (e.status ≠ .disabled → (s', m') = insideScope ur feat (.converted rec) s0) := by
   simp only [insideConvertedCall, h0] at h
   constructor
   · intro hd
     simp only [hd, if_true, Option.some.injEq, Prod.mk.injEq] at h
     exact ⟨h.1.symm, h.2.symm⟩
   · intro hd
-    simp only [hd, if_false] at h
-    cases ur
-    · simp only [Bool.false_eq_true, if_false, Option.some.injEq, Prod.mk.injEq] at h
-      exact ⟨h.2.symm, by simp, fun _ => h.1.symm⟩
-    · simp only [if_true, Option.some.injEq, Prod.mk.injEq] at h
-      refine ⟨h.2.symm, fun _ => ?_, by simp⟩
-      rw [← h.1]; rfl
+    simp only [hd, if_false, Option.some.injEq] at h
+    exact h.symm
 
 /-- The entry in effect where `converted_call` of a `convert` wrapper decides. -/
 def effective (c : Option CtxRef) (s : TState) : Option Entry :=
@@ -1025,8 +1147,8 @@ def effective (c : Option CtxRef) (s : TState) : Option Entry :=
   | none => s.stack.head?
   | some r => r.get s.stack
 
-theorem insideConvert_eq (ur rec : Bool) (c : Option CtxRef) (s : TState) (e : Entry) (he : effective c s = some e) :
-    ∃ s0, s0.stack.head? = some e ∧ s0.next = s.next ∧ insideConvert ur rec c s = insideConvertedCall ur rec s0 ∧
+theorem insideConvert_eq (ur rec feat : Bool) (c : Option CtxRef) (s : TState) (e : Entry) (he : effective c s = some e) :
+    ∃ s0, s0.stack.head? = some e ∧ s0.next = s.next ∧ insideConvert ur rec feat c s = insideConvertedCall ur rec feat s0 ∧
       (c = none → s0 = s) ∧ (∀ r, c = some r → s0 = push e s) := by
   cases c with
   | none => exact ⟨s, he, rfl, rfl, fun _ => rfl, by simp⟩
@@ -1034,7 +1156,16 @@ theorem insideConvert_eq (ur rec : Bool) (c : Option CtxRef) (s : TState) (e : E
     simp only [effective] at he
     exact ⟨push e s, rfl, rfl, by simp [insideConvert, he], by simp, fun _ _ => rfl⟩
 
-theorem required_ok (k : Kind) (m : Mode) (s s' : TState) (m' : Mode) (hi : inside k m s = some (s', m')) (st : Status)
+theorem insideScope_user_enabled (feat : Bool) (mOk : Mode) (s0 s' : TState) (m' : Mode)
+    (h : (s', m') = insideScope true feat mOk s0) (hm : m' ≠ .refused) :
+    s'.stack.head? = some ⟨.fresh s0.next, .enabled⟩ ∧ m' = mOk := by
+  rcases insideScope_cases true feat mOk s0 with ⟨_, h1⟩ | ⟨_, _, h1⟩ | ⟨_, h2, _⟩
+  · rw [h1] at h; cases h; exact absurd rfl hm
+  · rw [h1] at h; cases h; exact ⟨rfl, rfl⟩
+  · cases h2
+
+theorem required_ok (k : Kind) (m : Mode) (s s' : TState) (m' : Mode) (hi : inside k m s = some (s', m'))
+    (hm' : m' ≠ .refused) (st : Status)
     (hr : requiredStatus k s.stack.head? = some st) : s'.stack.head?.map (·.status) = some st := by
   cases k with
   | plain => simp [requiredStatus] at hr
@@ -1044,15 +1175,17 @@ theorem required_ok (k : Kind) (m : Mode) (s s' : TState) (m' : Mode) (hi : insi
   | doNotConvert =>
     simp only [requiredStatus, Option.some.injEq] at hr
     cases hi; subst hr; rfl
-  | functionScope ur =>
+  | functionScope ur feat =>
     cases ur
     · simp [requiredStatus] at hr
     · simp only [requiredStatus, Option.some.injEq] at hr
-      cases hi; subst hr; rfl
-  | toGraph rec lam =>
+      simp only [inside, Option.some.injEq] at hi
+      rw [(insideScope_user_enabled feat _ s s' m' hi.symm hm').1]; subst hr; rfl
+  | toGraph rec lam feat =>
     simp only [requiredStatus, Option.some.injEq] at hr
-    cases hi; subst hr; rfl
-  | convert ur rec c =>
+    simp only [inside, Option.some.injEq] at hi
+    rw [(insideScope_user_enabled feat _ s s' m' hi.symm hm').1]; subst hr; rfl
+  | convert ur rec feat c =>
     cases ur
     · simp [requiredStatus] at hr
     · have heff : effectiveEntry c s.stack.head? = effective c s := by
@@ -1068,11 +1201,11 @@ theorem required_ok (k : Kind) (m : Mode) (s s' : TState) (m' : Mode) (hi : insi
         · simp at hr
         · rename_i hd
           cases hr
-          obtain ⟨s0, h0, _, heq, _, _⟩ := insideConvert_eq true rec c s e he
-          have hi' : insideConvertedCall true rec s0 = some (s', m') := by
+          obtain ⟨s0, h0, _, heq, _, _⟩ := insideConvert_eq true rec feat c s e he
+          have hi' : insideConvertedCall true rec feat s0 = some (s', m') := by
             rw [← heq]; simpa [inside] using hi
-          have := ((insideConvertedCall_status true rec s0 s' m' e h0 hi').2 hd).2.1 rfl
-          rw [this]; rfl
+          have := (insideConvertedCall_status true rec feat s0 s' m' e h0 hi').2 hd
+          rw [(insideScope_user_enabled feat _ s0 s' m' this hm').1]; rfl
 
 /-- Converted code never runs under DISABLED: if the body a wrapper reaches is converted code, the status
 it starts under is not DISABLED. -/
@@ -1086,6 +1219,7 @@ theorem inside_conv_status (k : Kind) (m : Mode) (s s' : TState) (m' : Mode) (hi
     intro m0 s0 s1 m1 h hc1
     cases m0 with
     | native => simp only [insidePlainCall, Option.some.injEq, Prod.mk.injEq] at h; rw [← h.2] at hc1; simp [Mode.isConverted] at hc1
+    | refused => simp only [insidePlainCall, Option.some.injEq, Prod.mk.injEq] at h; rw [← h.2] at hc1; simp [Mode.isConverted] at hc1
     | converted rec =>
       cases hh : s0.stack.head? with
       | none => simp [insidePlainCall, hh] at h
@@ -1093,28 +1227,33 @@ theorem inside_conv_status (k : Kind) (m : Mode) (s s' : TState) (m' : Mode) (hi
         simp only [insidePlainCall, hh, Option.some.injEq, Prod.mk.injEq] at h
         rw [← h.2] at hc1
         exact ⟨e, by rw [← h.1]; exact hh, hcallee rec e hc1⟩
-  have hcc : ∀ (ur rec : Bool) (s0 : TState), insideConvertedCall ur rec s0 = some (s', m') →
+  -- a scope reached while the current entry `e` (top of `s0`) is not DISABLED
+  have hsc : ∀ (ur feat : Bool) (mOk : Mode) (s0 : TState) (e : Entry), s0.stack.head? = some e → e.status ≠ .disabled →
+      (s', m') = insideScope ur feat mOk s0 → ∃ e, s'.stack.head? = some e ∧ e.status ≠ .disabled := by
+    intro ur feat mOk s0 e h0 hd h
+    rcases insideScope_cases ur feat mOk s0 with ⟨_, h1⟩ | ⟨_, _, h1⟩ | ⟨_, _, h1⟩
+    · rw [h1] at h; cases h; simp [Mode.isConverted] at hc
+    · rw [h1] at h; cases h; exact ⟨_, rfl, by simp⟩
+    · rw [h1] at h; cases h; exact ⟨e, h0, hd⟩
+  have hcc : ∀ (ur rec feat : Bool) (s0 : TState), insideConvertedCall ur rec feat s0 = some (s', m') →
       ∃ e, s'.stack.head? = some e ∧ e.status ≠ .disabled := by
-    intro ur rec s0 h
+    intro ur rec feat s0 h
     cases hh : s0.stack.head? with
     | none => simp [insideConvertedCall, hh] at h
     | some e =>
-      have := insideConvertedCall_status ur rec s0 s' m' e hh h
+      have := insideConvertedCall_status ur rec feat s0 s' m' e hh h
       by_cases hd : e.status = .disabled
       · have := (this.1 hd).2; rw [this] at hc; simp [Mode.isConverted] at hc
-      · have h2 := this.2 hd
-        cases ur
-        · exact ⟨e, by rw [h2.2.2 rfl]; exact hh, hd⟩
-        · exact ⟨_, h2.2.1 rfl, by simp⟩
-  have hcv : ∀ (ur rec : Bool) (c : Option CtxRef), insideConvert ur rec c s = some (s', m') →
+      · exact hsc ur feat _ s0 e hh hd (this.2 hd)
+  have hcv : ∀ (ur rec feat : Bool) (c : Option CtxRef), insideConvert ur rec feat c s = some (s', m') →
       ∃ e, s'.stack.head? = some e ∧ e.status ≠ .disabled := by
-    intro ur rec c h
+    intro ur rec feat c h
     cases c with
-    | none => exact hcc ur rec s h
+    | none => exact hcc ur rec feat s h
     | some r =>
       cases hr : r.get s.stack with
       | none => simp [insideConvert, hr] at h
-      | some e => exact hcc ur rec (push e s) (by simpa [insideConvert, hr] using h)
+      | some e => exact hcc ur rec feat (push e s) (by simpa [insideConvert, hr] using h)
   cases k with
   | plain => exact hpc m s s' m' hi hc
   | doNotConvert => cases hi; simp [Mode.isConverted] at hc
@@ -1126,18 +1265,23 @@ theorem inside_conv_status (k : Kind) (m : Mode) (s s' : TState) (m' : Mode) (hi
       split at hi
       · simp at hi
       · exact hpc _ _ s' m' hi hc
-  | functionScope ur =>
-    cases ur
-    · cases hi; simp [Mode.isConverted] at hc
-    · cases hi; simp [Mode.isConverted] at hc
-  | toGraph rec lam => cases hi; exact ⟨_, rfl, by simp⟩
-  | convert ur rec c => exact hcv ur rec c hi
+  | functionScope ur feat =>
+    simp only [inside, Option.some.injEq] at hi
+    rcases insideScope_cases ur feat .native s with ⟨_, h1⟩ | ⟨_, _, h1⟩ | ⟨_, _, h1⟩ <;>
+      (rw [h1] at hi; cases hi; simp [Mode.isConverted] at hc)
+  | toGraph rec lam feat =>
+    simp only [inside, Option.some.injEq] at hi
+    rcases insideScope_cases true feat (if lam then .native else .converted rec) s with ⟨_, h1⟩ | ⟨_, _, h1⟩ | ⟨_, h2, _⟩
+    · rw [h1] at hi; cases hi; simp [Mode.isConverted] at hc
+    · rw [h1] at hi; cases hi; exact ⟨_, rfl, by simp⟩
+    · cases h2
+  | convert ur rec feat c => exact hcv ur rec feat c hi
   | internalConvert r cbd ur =>
     cases hr : r.get s.stack with
     | none => simp [inside, hr] at hi
     | some e =>
       cases hs : e.status with
-      | enabled => exact hcv ur true _ (by simpa [inside, hr, hs] using hi)
+      | enabled => exact hcv ur true false _ (by simpa [inside, hr, hs] using hi)
       | disabled =>
         have : (s', m') = (pushFresh .disabled s, Mode.native) := by simpa [inside, hr, hs] using hi.symm
         cases this; simp [Mode.isConverted] at hc
@@ -1145,13 +1289,17 @@ theorem inside_conv_status (k : Kind) (m : Mode) (s s' : TState) (m' : Mode) (hi
         cases cbd
         · have : (s', m') = (pushFresh .unspecified s, Mode.native) := by simpa [inside, hr, hs] using hi.symm
           cases this; simp [Mode.isConverted] at hc
-        · exact hcv ur true _ (by simpa [inside, hr, hs] using hi)
+        · exact hcv ur true false _ (by simpa [inside, hr, hs] using hi)
 
-theorem bodyC_log_shape (p : Path) (ca : Bool) (m : Mode) (b : Comp) (s : TState) :
+theorem bodyC_log_shape (p : Path) (ca : Bool) (m : Mode) (b : Comp) (s : TState) (hm : m ≠ .refused) :
     ∃ tail, (bodyC p ca m b s).log = obsAt p .inn m s :: ((b s).log ++ tail) ∧ ∀ o ∈ tail, o.owner = p := by
-  simp only [bodyC]
+  rw [bodyC_of_ne _ _ _ _ _ hm]
+  simp only [bodyCore]
   split
   · exact ⟨[obsAt p .out m (b s).st], rfl, by simp [obsAt]⟩
+  · split
+    · exact ⟨[obsAt p .caught m (b s).st, obsAt p .out m (b s).st], rfl, by simp [obsAt]⟩
+    · exact ⟨[], by simp, by simp⟩
   · split
     · exact ⟨[obsAt p .caught m (b s).st, obsAt p .out m (b s).st], rfl, by simp [obsAt]⟩
     · exact ⟨[], by simp, by simp⟩
@@ -1187,6 +1335,9 @@ theorem runNode_check : ∀ (t : Tree) (p : Path) (m : Mode) (s : TState), s.sta
     cases hb : bodyLevel p (bodyOf cs ra ca p m' s').log with
     | nil => rfl
     | cons o rest =>
+      have hm' : m' ≠ .refused := by
+        intro h; subst h
+        simp only [bodyOf] at hb; rw [bodyC_refused] at hb; simp [bodyLevel] at hb
       have hmem : ∀ o' ∈ o :: rest, o'.top = s'.stack.head? ∧ o'.conv = m'.isConverted := by
         intro o' ho'
         have : o' ∈ bodyLevel p (bodyOf cs ra ca p m' s').log := hb ▸ ho'
@@ -1203,7 +1354,7 @@ theorem runNode_check : ∀ (t : Tree) (p : Path) (m : Mode) (s : TState), s.sta
       · split
         · rfl
         · rename_i st hr
-          rw [ho, required_ok k m s s' m' hi st hr]
+          rw [ho, required_ok k m s s' m' hi hm' st hr]
           simp
       · -- converted code does not run under DISABLED
         cases hcv : m'.isConverted with
@@ -1212,7 +1363,7 @@ theorem runNode_check : ∀ (t : Tree) (p : Path) (m : Mode) (s : TState), s.sta
           obtain ⟨e, he, hd⟩ := inside_conv_status k m s s' m' hi hcv
           simp [ho, he, hd]
       · rw [ho]
-        obtain ⟨tail, hshape, htail⟩ := bodyC_log_shape p ca m' (runKids cs p 0 ra m') s'
+        obtain ⟨tail, hshape, htail⟩ := bodyC_log_shape p ca m' (runKids cs p 0 ra m') s' hm'
         have hcongr := checkKids_congr cs p 0 s'.stack.head? (bodyOf cs ra ca p m' s').log (runKids cs p 0 ra m' s').log
           (fun j _ => by
             rw [show (bodyOf cs ra ca p m' s').log = _ from hshape]
@@ -1386,13 +1537,28 @@ theorem runNode_convOK : ∀ (t : Tree) (p : Path) (m : Mode) (s : TState), s.st
     have hk := runKids_convOK cs p 0 ra m' s' hs' hcompat
     have hb := runKids_bal cs p 0 ra m' s'
     have hc2 : Compat m' (runKids cs p 0 ra m' s').st := compat_of_stack_eq hcompat hb
-    simp only [bodyOf, bodyC] at ho'
+    by_cases hm : m' = .refused
+    · subst hm; simp only [bodyOf] at ho'; rw [bodyC_refused] at ho'; simp at ho'
+    simp only [bodyOf] at ho'
+    rw [bodyC_of_ne _ _ _ _ _ hm] at ho'
+    simp only [bodyCore] at ho'
     split at ho'
     · simp only [List.mem_cons, List.mem_append, List.not_mem_nil, or_false] at ho'
       rcases ho' with rfl | ho' | rfl
       · exact obsAt_convOK _ _ _ _ hcompat
       · exact hk o ho'
       · exact obsAt_convOK _ _ _ _ hc2
+    · split at ho'
+      · simp only [List.mem_cons, List.mem_append, List.not_mem_nil, or_false] at ho'
+        rcases ho' with rfl | ho' | rfl | rfl
+        · exact obsAt_convOK _ _ _ _ hcompat
+        · exact hk o ho'
+        · exact obsAt_convOK _ _ _ _ hc2
+        · exact obsAt_convOK _ _ _ _ hc2
+      · simp only [List.mem_cons] at ho'
+        rcases ho' with rfl | ho'
+        · exact obsAt_convOK _ _ _ _ hcompat
+        · exact hk o ho'
     · split at ho'
       · simp only [List.mem_cons, List.mem_append, List.not_mem_nil, or_false] at ho'
         rcases ho' with rfl | ho' | rfl | rfl
@@ -1433,5 +1599,113 @@ theorem runKids_convOK : ∀ (cs : List Tree) (p : Path) (i : Nat) (ra : Option 
         · exact obsAt_convOK _ _ _ _ hcm
         · exact h1 o ho
 end
+
+
+/-! ## Part 6 — function scopes in general: where a refusing check may stand
+
+`scopeWith init enter` for *arbitrary* construction / entry step lists (the code under test instantiates them
+with `Gen.fsInitSteps` / `Gen.fsEnterSteps`).  A scope restores the context list on every path — also when it
+refuses its options — provided `__enter__` enters at most one context and no refusing check can fire after
+that context has been pushed (either all checks sit in `__init__`, or none follows the push in `__enter__`). -/
+
+/-- No refusing check after the push, and no second push. -/
+def enterOrdered : List Gen.FsStep → Bool
+  | [] => true
+  | .pushIfUr :: r => !r.contains .check && !r.contains .pushIfUr
+  | _ :: r => enterOrdered r
+
+/-- At most one push. -/
+def enterOnePush : List Gen.FsStep → Bool
+  | [] => true
+  | .pushIfUr :: r => !r.contains .pushIfUr
+  | _ :: r => enterOnePush r
+
+def scopeSafe (init enter : List Gen.FsStep) : Bool :=
+  enterOrdered enter || (init.contains .check && enterOnePush enter)
+
+theorem runEnter_noPush (r : List Gen.FsStep) (ur feat : Bool) (s : TState) (pu : Option CtxId)
+    (h : r.contains .pushIfUr = false) :
+    runEnter r ur feat s pu = (s, pu, feat && r.contains .check) := by
+  induction r with
+  | nil => simp [runEnter]
+  | cons x r ih =>
+    cases x with
+    | pushIfUr => simp at h
+    | check =>
+      have h' : r.contains .pushIfUr = false := by simpa using h
+      cases feat
+      · simp [runEnter, ih h']
+      · simp [runEnter]
+    | unknown =>
+      have h' : r.contains .pushIfUr = false := by simpa using h
+      simp [runEnter, ih h']
+
+/-- The scope with the refusal branch of `__init__` already decided (`featE` = may a check in `__enter__` fire). -/
+theorem scopeWith_enter_bal (enter : List Gen.FsStep) (ur featE : Bool) (body : Comp) (hb : Bal body) (s : TState)
+    (h1 : enterOnePush enter = true) (h2 : featE = true → enterOrdered enter = true) :
+    (match runEnter enter ur featE s none with
+      | (s1, _, true) => (⟨s1, some .rejected, []⟩ : Res)
+      | (s1, pu, false) =>
+          let r := body s1
+          match pu with
+          | none => r
+          | some id => let x := exitCtx id r.out r.st; ⟨x.1, x.2, r.log⟩).st.stack = s.stack := by
+  induction enter with
+  | nil => simp [runEnter, hb s]
+  | cons x r ih =>
+    cases x with
+    | check =>
+      cases featE
+      · simpa [runEnter] using ih (by simpa [enterOnePush] using h1) (by simp)
+      · simp [runEnter]
+    | unknown =>
+      simpa [runEnter] using ih (by simpa [enterOnePush] using h1) (fun h => by simpa [enterOrdered] using h2 h)
+    | pushIfUr =>
+      have hnp : r.contains .pushIfUr = false := by simpa [enterOnePush] using h1
+      cases ur
+      · -- nothing pushed: the rest cannot push either
+        simp only [runEnter, Bool.false_eq_true, if_false]
+        rw [runEnter_noPush r false featE s none hnp]
+        cases hf : (featE && r.contains .check) <;> simp [hb s]
+      · simp only [runEnter, if_true]
+        rw [runEnter_noPush r true featE _ _ hnp]
+        have hnc : (featE && r.contains .check) = false := by
+          cases featE
+          · rfl
+          · have := h2 rfl
+            simp only [enterOrdered, Bool.and_eq_true, Bool.not_eq_true'] at this
+            rw [this.1]; rfl
+        rw [hnc]
+        simp only
+        have hbody := hb (push ⟨.fresh s.next, .enabled⟩ { s with next := s.next + 1 })
+        rw [exitCtx_top ⟨.fresh s.next, .enabled⟩ _ _ s.stack (by simpa [push] using hbody)]
+
+/-- **A safe scope restores the list on every path**, refusal included. -/
+theorem scopeWith_bal (init enter : List Gen.FsStep) (ur feat : Bool) (body : Comp) (hb : Bal body)
+    (hsafe : scopeSafe init enter = true) : Bal (scopeWith init enter ur feat body) := by
+  intro s
+  simp only [scopeWith]
+  by_cases hrej : (feat && init.contains .check) = true
+  · rw [if_pos hrej]
+  · rw [if_neg hrej]
+    simp only [scopeSafe, Bool.or_eq_true, Bool.and_eq_true] at hsafe
+    have hone : enterOnePush enter = true := by
+      rcases hsafe with h | h
+      · -- ordered implies one push
+        clear hrej
+        induction enter with
+        | nil => rfl
+        | cons x r ih =>
+          cases x with
+          | pushIfUr => simp only [enterOrdered, Bool.and_eq_true] at h; simpa [enterOnePush] using h.2
+          | check => simpa [enterOnePush] using ih (by simpa [enterOrdered] using h)
+          | unknown => simpa [enterOnePush] using ih (by simpa [enterOrdered] using h)
+      · exact h.2
+    have hord : feat = true → enterOrdered enter = true := by
+      intro hf
+      rcases hsafe with h | h
+      · exact h
+      · exfalso; apply hrej; rw [hf, h.1]; rfl
+    exact scopeWith_enter_bal enter ur feat body hb s hone hord
 
 end Malt.Ctx
